@@ -160,6 +160,9 @@ class WireLaws (F : Type) [FloatOps F] : Prop where
   le_notNaN : ∀ x y : F, le x y = true → isNaN x = false ∧ isNaN y = false
   le_trans : ∀ x y z : F, le x y = true → le y z = true → le x z = true
   feq_refl : ∀ x : F, isNaN x = false → feq x x = true
+  le_refl : ∀ x : F, isNaN x = false → le x x = true
+  /-- `-sys.float_info.max <= sys.float_info.max` -/
+  negMax_le_max : le (neg maxFinite : F) maxFinite = true
   /-- `x + 0.0` is `x` for every comparison (`-0.0 + 0.0 == -0.0`) -/
   isNaN_addZero : ∀ x : F, isNaN (addZero x) = isNaN x
   le_addZero_left : ∀ x y : F, le (addZero x) y = le x y
@@ -194,30 +197,40 @@ structure TextLib.Lawful (lib : TextLib F) : Prop where
   /-- `repr(True)` / `repr(False)` are among the words `BoolType.from_string` knows, also after `strip` -/
   boolWordTrue : lib.strip (lib.reprBool true) = "True"
   boolWordFalse : lib.strip (lib.reprBool false) = "False"
-  /-- formatting is stable under re-reading: `fmt % float(literal_eval(fmt % x)) == fmt % x` for a finite
-  `x` that is not `-0.0`, through `FloatRange.__call__` … -/
+  /-- idempotence of format∘parse, stated of the library and the float arithmetic alone (no frappy code): the text of a
+  finite float that is not `-0.0` is a number literal `w` (a float, or an int: `'%.0f' % 3.0` is `'3'`) which is not NaN,
+  and formatting the number it reads back as — brought into the float range, as `'%.3g' % 1.797e308` is `'1.8e+308'` and
+  reads back as `inf` — gives the same text: `fmt % clamp(-max, literal_eval(fmt % x) + 0.0, max) == fmt % x`.
+  That `FloatRange.__call__` accepts such a `w` and returns exactly that clamped number is proved from the model
+  (`Lemmas.C02.doubleCall_of_number`), not assumed. -/
   fmtDouble : ∀ (pos : List Nat) (x : F), FiniteNum x → same (addZero x) x = true →
-    ∃ w y, lib.evalAtom (lib.fmtFloat pos x) = some w ∧ doubleCall w = .ok y ∧
-      lib.fmtFloat pos y = lib.fmtFloat pos x
-  /-- … and through `ScaledInteger.__call__` for a value the grid reproduces -/
+    ∃ w r, lib.evalAtom (lib.fmtFloat pos x) = some w ∧ PVal.toFloat? w = some r ∧ isNaN r = false ∧
+      lib.fmtFloat pos (median3 (neg maxFinite) r maxFinite) = lib.fmtFloat pos x
+  /-- … for a value `x` the grid of `scale` reproduces: the text is a number literal, the grid value `y` nearest to the
+  number read (`round(r / scale) * scale`) is finite, prints as the same text and is again one the grid reproduces
+  (`round(y / scale) * scale == y`).  That `ScaledInteger.__call__` returns this `y` is proved from the model
+  (`Lemmas.C02.scaledCall_of_number`). -/
   fmtScaled : ∀ (pos : List Nat) (scale x : F), SnapFix scale x → same (addZero x) x = true →
-    ∃ w y, lib.evalAtom (lib.fmtFloat pos x) = some w ∧ scaledCall scale w = .ok y ∧
-      lib.fmtFloat pos y = lib.fmtFloat pos x
+    ∃ w r y, lib.evalAtom (lib.fmtFloat pos x) = some w ∧ PVal.toFloat? w = some r ∧ DType.snap scale r = some y ∧
+      isFinite y = true ∧ lib.fmtFloat pos y = lib.fmtFloat pos x ∧ SnapFix scale y
 
 mutual
-/-- `str.strip` leaves every enum member name of the tree alone (no leading/trailing white space) -/
-def NamesStripped (lib : TextLib F) : DType F → Prop
-  | .enum ms => ∀ m ∈ ms, lib.strip m.1 = m.1
-  | .array e _ _ => NamesStripped lib e
-  | .tuple es => NamesStrippedList lib es
-  | .struct ms _ _ => NamesStrippedFields lib ms
+/-- the grid law at the limits of every scaled leaf: the limits travel in the description as grid indices
+(`round(min / scale)`, `round(max / scale)`) and come back as `index * scale`; those snapped limits are values the grid
+reproduces (`round(lo / scale) * scale == lo`).  Then the rebuilt type has the same value set as the node's. -/
+def LimitsOnGrid : DType F → Prop
+  | .scaled scale min max _ _ =>
+    (∀ lo, snap scale min = some lo → SnapFix scale lo) ∧ (∀ hi, snap scale max = some hi → SnapFix scale hi)
+  | .array e _ _ => LimitsOnGrid e
+  | .tuple es => LimitsOnGridList es
+  | .struct ms _ _ => LimitsOnGridFields ms
   | _ => True
-def NamesStrippedList (lib : TextLib F) : List (DType F) → Prop
+def LimitsOnGridList : List (DType F) → Prop
   | [] => True
-  | t :: ts => NamesStripped lib t ∧ NamesStrippedList lib ts
-def NamesStrippedFields (lib : TextLib F) : List (String × DType F) → Prop
+  | t :: ts => LimitsOnGrid t ∧ LimitsOnGridList ts
+def LimitsOnGridFields : List (String × DType F) → Prop
   | [] => True
-  | (_, t) :: ts => NamesStripped lib t ∧ NamesStrippedFields lib ts
+  | (_, t) :: ts => LimitsOnGrid t ∧ LimitsOnGridFields ts
 end
 
 mutual
@@ -419,7 +432,10 @@ def judgeText (v : PVal F) (t : Out Text) (back : Option (Out (PVal F))) (again 
     | none => ["text:missing"]
 
 /-- client string write: `back` = what `from_string` made of the text on the client, `sent` = the JSON
-value found in the `change` line the client sent, `node` = `import_value(sent)` on the node's datatype -/
+value found in the `change` line the client sent, `node` = `import_value(sent)` on the node's datatype.
+The driver judges `setParameter(value)` of the cached value with the same function (`back` = the cached value;
+clauses renamed `cset:…`): the exported form of the client's datatype is of the kind the node's type prescribes and
+imports on the node to an equal value. -/
 def judgeClientWrite (dt : DType F) (back : Out (PVal F)) (sent : Out (JVal F)) (node : Option (Out (PVal F))) : List String :=
   match back with
   | .err _ => []                                    -- judged by `judgeText`
